@@ -222,7 +222,10 @@ def r5(p, rep):
         raise AnalysisError("unrecognised idiom: matches() is not a single try/except")
     t = tries[0]
     calls = [n for st in t.body for n in ast.walk(st) if isinstance(n, ast.Call) and isinstance(n.func, ast.Name) and n.func.id in ("solve_shapes", "solve_axes", "_solve")]
-    rt = [n for st in t.body for n in ast.walk(st) if isinstance(n, ast.Return)]
+    rt = [n for st in t.body + t.orelse for n in ast.walk(st) if isinstance(n, ast.Return)]
+    if not rt:
+        # `try: solve(); except: return False` followed by `return True`
+        rt = [n for n in f.node.body if isinstance(n, ast.Return) and n.lineno > t.lineno]
     ok_true = bool(calls) and len(rt) == 1 and isinstance(rt[0].value, ast.Constant) and rt[0].value.value is True and calls[0].lineno < rt[0].lineno
     rep.add("C02.R5", f"{f.qualname}:true", f"{f.module.rel}:{t.lineno}", ok_true, "`return True` follows the solve call inside the try body")
     rf = [(h, n) for h in t.handlers for st in h.body for n in ast.walk(st) if isinstance(n, ast.Return)]
@@ -241,7 +244,7 @@ def r6(p, rep):
     targets = [(p.func("solve", "einx._src.namedtensor.solve"), "parameters"), (p.func("_input_expr", "namedtensor.stage2.solve"), "expr")]
     for f, what in targets:
         guards = []
-        for n in walk_no_nested(f.node):
+        for n in common.nodes_of(common.with_helpers(p, f)):
             if isinstance(n, ast.If):
                 from sa.cfg import decompose
 
